@@ -1,19 +1,22 @@
 /-
 C07 — content-addressed store: novelty signal, single copy, no dangling reference.
 
-All statements are about `Generated.Blob.program`, the micro-step program of one update as
-regenerated from `db/util/__init__.py`, `db/shelve/comms.py` and `db/shelve/model.py` on
-every run.  A history is any list of operations
+All statements are about `Generated.Blob.program`, the statements of one update as regenerated
+from `db/util/__init__.py`, `db/shelve/comms.py` and `db/shelve/model.py` on every run, in BOTH
+configurations `cfg.xfs` (staging directory on the store's file system: `shutil.move` is one
+atomic rename; on another file system: `shutil.move` creates, partially writes, completes the
+destination and then unlinks the source — four separate crash points).  A history is any list of
   `upd key content budget` (one value written through `Interface._update`; the process dies
-                            after `budget` micro-steps, `budget ≥ 8` = the update completes),
+                            after `budget` micro-steps; `steps …` of them complete the update),
   `del key`                (`dawgie.db.remove`),
   `purge visit`            (`db/tools/purge.py`, interrupted after visiting `visit`),
 started on the empty store; keys and contents are arbitrary and may repeat.  Because every
 update carries its own crash budget, the set of final states of all histories is exactly the
 set of disk states at all micro-step boundaries, with restarts in between.
 
-`h` is the digest (md5sum, sha1sum of the staged file), `e` the bytes of an empty file.
-Collision freedom of `h` is needed by `isnew_iff` only and is an explicit hypothesis there.
+`cfg.h` is the digest (md5sum, sha1sum of the staged file), `cfg.e` the bytes of an empty file,
+`cfg.t body` what a partially written copy of `body` holds (arbitrary).
+Collision freedom of `cfg.h` is needed by the `isnew` theorems only and is an explicit hypothesis there.
 -/
 import DawgieVerif.Proofs.Blob
 
@@ -23,65 +26,70 @@ open DawgieVerif.Blob DawgieVerif.Generated.Blob
 variable {K N C : Type} [DecidableEq K] [DecidableEq N]
 
 /-- disk state at the end of a history (crash budgets included) started on the empty store -/
-abbrev final (h : C → N) (e : C) (ops : List (Op K N C)) : St K N C :=
-  (run h e program init ops).1
+abbrev final (cfg : Cfg N C) (ops : List (Op K N C)) : St K N C :=
+  (run cfg program init ops).1
 
 /-- the novelty flags reported during the history, one slot per operation -/
-abbrev flags (h : C → N) (e : C) (ops : List (Op K N C)) : List (Option Bool) :=
-  (run h e program init ops).2
+abbrev flags (cfg : Cfg N C) (ops : List (Op K N C)) : List (Option Bool) :=
+  (run cfg program init ops).2
+
+/-- micro-steps a complete update of `content` takes on the state `s` -/
+abbrev needed (cfg : Cfg N C) (s : St K N C) (content : C) : Nat :=
+  steps cfg.xfs (decide (cfg.h content ∈ names s))
 
 /-- Every catalogue entry refers to an existing stored file — after every history, hence at
-    every micro-step boundary and after a crash anywhere. -/
-theorem no_dangling (h : C → N) (e : C) (ops : List (Op K N C)) :
-    ∀ p ∈ (final h e ops).prime, p.2 ∈ names (final h e ops) :=
-  (inv_run e ops (inv_init h)).linked
+    every micro-step boundary and after a crash anywhere, in both configurations. -/
+theorem no_dangling (cfg : Cfg N C) (ops : List (Op K N C)) :
+    ∀ p ∈ (final cfg ops).prime, p.2 ∈ names (final cfg ops) :=
+  (inv_run cfg ops (inv_init cfg.h)).linked
 
-/-- Every stored file is named by the digest of its content. -/
-theorem name_is_digest (h : C → N) (e : C) (ops : List (Op K N C)) :
-    ∀ b ∈ (final h e ops).store, b.1 = h b.2 :=
-  (inv_run e ops (inv_init h)).digest
+/-- Every file directly in the store directory is named by the digest of its (complete) content:
+    partial content never appears under a digest name. -/
+theorem name_is_digest (cfg : Cfg N C) (ops : List (Op K N C)) :
+    ∀ b ∈ (final cfg ops).store, b.1 = cfg.h b.2 :=
+  (inv_run cfg ops (inv_init cfg.h)).digest
 
 /-- Identical content is kept once: no two stored files share a name, nor a content. -/
-theorem single_copy (h : C → N) (e : C) (ops : List (Op K N C)) :
-    (names (final h e ops)).Nodup ∧ (contents (final h e ops)).Nodup := by
-  have hi := inv_run e ops (inv_init h)
+theorem single_copy (cfg : Cfg N C) (ops : List (Op K N C)) :
+    (names (final cfg ops)).Nodup ∧ (contents (final cfg ops)).Nodup := by
+  have hi := inv_run cfg ops (inv_init cfg.h)
   refine ⟨hi.nodup, ?_⟩
-  have hmap : names (final h e ops) = (contents (final h e ops)).map h := by
+  have hmap : names (final cfg ops) = (contents (final cfg ops)).map cfg.h := by
     simp only [names, contents, List.map_map]
     exact List.map_congr_left (fun b hb => hi.digest b hb)
   have hn := hi.nodup
   rw [hmap] at hn
-  exact List.Pairwise.of_map h (fun a b hab heq => hab (congrArg h heq)) hn
+  exact List.Pairwise.of_map cfg.h (fun a b hab heq => hab (congrArg cfg.h heq)) hn
 
 /-- A value is reported new exactly when no identical content was in the store before:
-    after any history `pre`, a completed update of `content` reports
+    after any history `pre`, an update of `content` that is given the micro-steps it needs reports
     `isnew = true ↔ no stored file holds content`. -/
-theorem isnew_iff (h : C → N) (hinj : Function.Injective h) (e : C) (pre : List (Op K N C))
-    (key : K) (content : C) (budget : Nat) (hb : program.length ≤ budget) :
-    ∃ isnew, (apply h e program (final h e pre) (.upd key content budget)).2 = some isnew ∧
-      (isnew = true ↔ ∀ b ∈ (final h e pre).store, b.2 ≠ content) := by
-  have hi := inv_run e pre (inv_init h)
-  rw [program_length] at hb
-  refine ⟨decide (h content ∉ names (final h e pre)), ?_, ?_⟩
-  · simp [apply, runUpd_closed, hb]
+theorem isnew_iff (cfg : Cfg N C) (hinj : Function.Injective cfg.h) (pre : List (Op K N C))
+    (key : K) (content : C) (budget : Nat) (hb : needed cfg (final cfg pre) content ≤ budget) :
+    ∃ isnew, (apply cfg program (final cfg pre) (.upd key content budget)).2 = some isnew ∧
+      (isnew = true ↔ ∀ b ∈ (final cfg pre).store, b.2 ≠ content) := by
+  have hi := inv_run cfg pre (inv_init cfg.h)
+  refine ⟨decide (cfg.h content ∉ names (final cfg pre)), ?_, ?_⟩
+  · simp only [apply, runUpd_closed cfg key content _ hi, needed] at hb ⊢
+    simp [hb]
   · rw [decide_eq_true_eq, mem_names_iff hinj hi]
     simp only [contents, List.mem_map, not_exists, not_and]
 
 /-- The same, read off the flag list of one history: slot `pre.length` of the flags of
     `pre ++ upd key content budget :: post` (crashed updates report nothing). -/
-theorem isnew_in_history [DecidableEq C] (h : C → N) (hinj : Function.Injective h) (e : C)
+theorem isnew_in_history [DecidableEq C] (cfg : Cfg N C) (hinj : Function.Injective cfg.h)
     (pre post : List (Op K N C)) (key : K) (content : C) (budget : Nat) :
-    (flags h e (pre ++ .upd key content budget :: post))[pre.length]? =
-      some (if program.length ≤ budget
-            then some (decide (∀ b ∈ (final h e pre).store, b.2 ≠ content)) else none) := by
-  have hi := inv_run e pre (inv_init h)
+    (flags cfg (pre ++ .upd key content budget :: post))[pre.length]? =
+      some (if needed cfg (final cfg pre) content ≤ budget
+            then some (decide (∀ b ∈ (final cfg pre).store, b.2 ≠ content)) else none) := by
+  have hi := inv_run cfg pre (inv_init cfg.h)
   have hiff := mem_names_iff hinj hi content
-  have hlen := run_flags_length h e program pre (init : St K N C)
+  have hlen := run_flags_length cfg program pre (init : St K N C)
   simp only [flags, run_append]
   rw [List.getElem?_append_right (by rw [hlen]; exact Nat.le_refl _), hlen, Nat.sub_self]
-  simp only [run, apply, runUpd_closed, program_length, List.getElem?_cons_zero]
+  simp only [run, apply, runUpd_closed cfg key content _ hi, List.getElem?_cons_zero, needed]
   congr 1
-  by_cases hb : 8 ≤ budget
+  by_cases hb : steps cfg.xfs (decide (cfg.h content ∈ names (run cfg program init pre).1)) ≤ budget
   · simp only [hb, if_true]
     congr 1
     apply decide_eq_decide.mpr
@@ -90,91 +98,135 @@ theorem isnew_in_history [DecidableEq C] (h : C → N) (hinj : Function.Injectiv
   · simp only [hb, if_false]
 
 /-- An update cut short by a crash reports nothing (the flag is appended last). -/
-theorem crashed_update_silent (h : C → N) (e : C) (s : St K N C) (key : K) (content : C)
-    (budget : Nat) (hb : budget < program.length) :
-    (apply h e program s (.upd key content budget)).2 = none := by
-  rw [program_length] at hb
-  simp [apply, runUpd_closed]; omega
+theorem crashed_update_silent (cfg : Cfg N C) (pre : List (Op K N C)) (key : K) (content : C)
+    (budget : Nat) (hb : budget < needed cfg (final cfg pre) content) :
+    (apply cfg program (final cfg pre) (.upd key content budget)).2 = none := by
+  have hi := inv_run cfg pre (inv_init cfg.h)
+  simp only [apply, runUpd_closed cfg key content _ hi, needed] at hb ⊢
+  simp; omega
 
-/-- Staged leftovers are the only garbage, and only crashes produce them: at most one staged
-    file per crashed update, none in a crash-free history. -/
-theorem staged_garbage (h : C → N) (e : C) (ops : List (Op K N C)) :
-    (final h e ops).stage.length ≤ (ops.filter (Op.crashed program)).length := by
-  have := stage_run_le (h := h) e ops (inv_init h)
-  simpa [final, init] using this
+/-- Where garbage may live and how much: only in the staging directory and in `<store>/incoming`
+    (everything directly in the store is complete and named by its digest: `name_is_digest`), at
+    most one file in each per update that was cut short, none after a crash-free history. -/
+theorem staged_garbage (cfg : Cfg N C) (ops : List (Op K N C)) :
+    (final cfg ops).stage.length ≤ silent ops (flags cfg ops) ∧
+      (final cfg ops).incoming.length ≤ silent ops (flags cfg ops) := by
+  have := garbage_run cfg ops (inv_init (K := K) cfg.h)
+  simpa [final, flags, init] using this
 
 /-- What a completed update leaves behind: the key is catalogued under the digest of the content,
-    the content is stored, nothing that was stored or catalogued under another key is lost. -/
-theorem completed_update (h : C → N) (e : C) (pre : List (Op K N C)) (key : K) (content : C)
-    (budget : Nat) (hb : program.length ≤ budget) :
-    let s := final h e pre
-    let s' := (apply h e program s (.upd key content budget)).1
-    (key, h content) ∈ s'.prime ∧ (∀ p ∈ s'.prime, p.1 = key → p.2 = h content) ∧
-      (Function.Injective h → (h content, content) ∈ s'.store) ∧ (∀ b ∈ s.store, b ∈ s'.store) ∧
-      (∀ p ∈ s.prime, p.1 ≠ key → p ∈ s'.prime) ∧ s'.stage = s.stage := by
-  have hi := inv_run e pre (inv_init h)
-  rw [program_length] at hb
-  obtain ⟨k, rfl⟩ : ∃ k, budget = k + 8 := ⟨budget - 8, by omega⟩
-  simp only [apply, runUpd_closed, after, stage_rm_put hi]
-  refine ⟨by simp [put], ?_, ?_, ?_, ?_, trivial⟩
-  · intro p hp hk
-    simp only [put, List.mem_cons] at hp
-    rcases hp with rfl | hp
-    · rfl
-    · exact absurd hk (mem_rm.mp hp).2
-  · by_cases hm : h content ∈ names (final h e pre)
-    · simp only [hm, if_true]
-      intro hinj
+    the content is stored, nothing that was stored or catalogued under another key is lost, the
+    staging directory and `incoming` are as before. -/
+theorem completed_update (cfg : Cfg N C) (pre : List (Op K N C)) (key : K) (content : C)
+    (budget : Nat) (hb : needed cfg (final cfg pre) content ≤ budget) :
+    let s := final cfg pre
+    let s' := (apply cfg program s (.upd key content budget)).1
+    (key, cfg.h content) ∈ s'.prime ∧ (∀ p ∈ s'.prime, p.1 = key → p.2 = cfg.h content) ∧
+      cfg.h content ∈ names s' ∧
+      (Function.Injective cfg.h → (cfg.h content, content) ∈ s'.store) ∧ (∀ b ∈ s.store, b ∈ s'.store) ∧
+      (∀ p ∈ s.prime, p.1 ≠ key → p ∈ s'.prime) ∧ s'.stage = s.stage ∧ s'.incoming = s.incoming := by
+  have hi := inv_run cfg pre (inv_init cfg.h)
+  have hinv := inv_runUpd cfg hi key content budget
+  simp only [needed] at hb
+  simp only [apply] at hinv ⊢
+  rw [runUpd_closed cfg key content _ hi] at hinv ⊢
+  simp only [after] at hinv ⊢
+  by_cases hm : cfg.h content ∈ names (final cfg pre)
+  · simp only [hm, if_true, decide_true, steps] at hb hinv ⊢
+    obtain ⟨k, rfl⟩ : ∃ k, budget = k + 8 := ⟨budget - 8, by omega⟩
+    simp only [afterEx] at hinv ⊢
+    refine ⟨by simp [put], ?_, hm, ?_, fun b hb' => hb', ?_, by first | rfl | trivial, by first | rfl | trivial⟩
+    · intro p hp hk
+      simp only [put, List.mem_cons] at hp
+      rcases hp with rfl | hp
+      · rfl
+      · exact absurd hk (mem_rm.mp hp).2
+    · intro hinj
       obtain ⟨b, hb', hbe⟩ := List.mem_map.mp hm
       have hd := hi.digest b hb'
       have hc : b.2 = content := hinj (by rw [← hd, hbe])
-      have : b = (h content, content) := Prod.ext hbe hc
+      have : b = (cfg.h content, content) := Prod.ext hbe hc
       rw [← this]; exact hb'
-    · simp [hm, put]
-  · intro b hb'
-    by_cases hm : h content ∈ names (final h e pre)
-    · simpa [hm] using hb'
-    · simp only [hm, if_false, put, List.mem_cons]
-      right
-      refine mem_rm.mpr ⟨hb', fun hbe => hm ?_⟩
-      exact List.mem_map.mpr ⟨b, hb', hbe⟩
-  · intro p hp hk
-    simp only [put, List.mem_cons]
-    exact Or.inr (mem_rm.mpr ⟨hp, hk⟩)
+    · intro p hp hk
+      simp only [put, List.mem_cons]
+      exact Or.inr (mem_rm.mpr ⟨hp, hk⟩)
+  · have fresh_side : (key, cfg.h content) ∈ put (final cfg pre).prime key (cfg.h content) ∧
+        (∀ p ∈ put (final cfg pre).prime key (cfg.h content), p.1 = key → p.2 = cfg.h content) ∧
+        cfg.h content ∈ (put (final cfg pre).store (cfg.h content) content).map Prod.fst ∧
+        (Function.Injective cfg.h →
+          (cfg.h content, content) ∈ put (final cfg pre).store (cfg.h content) content) ∧
+        (∀ b ∈ (final cfg pre).store, b ∈ put (final cfg pre).store (cfg.h content) content) ∧
+        (∀ p ∈ (final cfg pre).prime, p.1 ≠ key → p ∈ put (final cfg pre).prime key (cfg.h content)) := by
+      refine ⟨by simp [put], ?_, by simp [put], fun _ => by simp [put], ?_, ?_⟩
+      · intro p hp hk
+        simp only [put, List.mem_cons] at hp
+        rcases hp with rfl | hp
+        · rfl
+        · exact absurd hk (mem_rm.mp hp).2
+      · intro b hb'
+        simp only [put, List.mem_cons]
+        right
+        refine mem_rm.mpr ⟨hb', fun hbe => hm ?_⟩
+        exact List.mem_map.mpr ⟨b, hb', hbe⟩
+      · intro p hp hk
+        simp only [put, List.mem_cons]
+        exact Or.inr (mem_rm.mpr ⟨hp, hk⟩)
+    obtain ⟨f1, f2, f3, f4, f5, f6⟩ := fresh_side
+    simp only [hm, if_false, decide_false, steps] at hb ⊢
+    cases hx : cfg.xfs
+    · simp only [hx, Bool.false_eq_true, if_false] at hb ⊢
+      obtain ⟨k, rfl⟩ : ∃ k, budget = k + 10 := ⟨budget - 10, by omega⟩
+      simp only [afterSame]
+      exact ⟨f1, f2, f3, f4, f5, f6, by first | rfl | trivial, by first | rfl | trivial⟩
+    · simp only [hx, if_true, Bool.false_eq_true, if_false] at hb ⊢
+      obtain ⟨k, rfl⟩ : ∃ k, budget = k + 13 := ⟨budget - 13, by omega⟩
+      simp only [afterXfs]
+      exact ⟨f1, f2, f3, f4, f5, f6, by first | rfl | trivial, by first | rfl | trivial⟩
 
 
-/-! ### non-vacuity: a concrete history with repeats, two crashes, a removal and a purge -/
+/-! ### non-vacuity: a concrete history with repeats, two crashes, a removal and a purge, in both configurations -/
 section examples
-def hx : Nat → Nat := (· + 100)
-/-- content 7 under keys 1 and 2; content 9 crashes after `place` (stored, not catalogued) and
-    again after `digest` (staged garbage); key 1 removed; purge deletes the orphan 109; 7 again
-    (not new), 9 again (new again: the purge removed it). -/
+/-- digest `c ↦ c + 100`, empty file `0`, a partial copy holds `c / 2` -/
+def cfgOf (x : Bool) : Cfg Nat Nat := ⟨(· + 100), 0, (· / 2), x⟩
+/-- content 7 under keys 1 and 2; content 9 crashes after 7 micro-steps (same file system: stored, not
+    catalogued; other file system: a partial copy in `incoming`, the staged file still there) and again after
+    `digest` (staged garbage); key 1 removed; purge; 7 again (not new); 9 again (new). -/
 def hist : List (Op Nat Nat Nat) :=
-  [.upd 1 7 8, .upd 2 7 8, .upd 3 9 5, .upd 3 9 3, .del 1, .purge [107, 109], .upd 1 7 8, .upd 4 9 8]
-example : flags hx 0 hist = [some true, some false, none, none, none, none, some false, some true] := by decide
-example : (final hx 0 hist).prime = [(4, 109), (1, 107), (2, 107)] := by decide
-example : (final hx 0 hist).store = [(109, 9), (107, 7)] := by decide
-example : (final hx 0 hist).stage = [(3, 9)] := by decide
-example : (final hx 0 (hist.take 3)).store = [(109, 9), (107, 7)] ∧
-    (final hx 0 (hist.take 3)).prime = [(2, 107), (1, 107)] := by decide
-example : (hist.filter (Op.crashed program)).length = 2 := by decide
+  [.upd 1 7 13, .upd 2 7 8, .upd 3 9 7, .upd 3 9 3, .del 1, .purge [107, 109], .upd 1 7 8, .upd 4 9 13]
+example : flags (cfgOf false) hist = [some true, some false, none, none, none, none, some false, some true] := by decide
+example : flags (cfgOf true) hist = [some true, some false, none, none, none, none, some false, some true] := by decide
+example : (final (cfgOf false) hist).prime = [(4, 109), (1, 107), (2, 107)] ∧
+    (final (cfgOf false) hist).store = [(109, 9), (107, 7)] ∧
+    (final (cfgOf false) hist).stage = [(3, 9)] ∧ (final (cfgOf false) hist).incoming = [] := by decide
+example : (final (cfgOf true) hist).prime = [(4, 109), (1, 107), (2, 107)] ∧
+    (final (cfgOf true) hist).store = [(109, 9), (107, 7)] ∧
+    (final (cfgOf true) hist).stage = [(3, 9), (2, 9)] ∧ (final (cfgOf true) hist).incoming = [(2, 4)] := by decide
+/-- other file system, crash in the middle of the copy: the partial bytes are in `incoming`, nothing under a digest name -/
+example : (final (cfgOf true) (hist.take 3)).store = [(107, 7)] ∧
+    (final (cfgOf true) (hist.take 3)).incoming = [(2, 4)] ∧
+    (final (cfgOf true) (hist.take 3)).stage = [(2, 9)] := by decide
+example : silent hist (flags (cfgOf true) hist) = 2 := by decide
 /-- the collision-freedom hypothesis of `isnew_iff` is satisfiable, and the theorem then pins the flag -/
-example : Function.Injective hx := fun a b hab => Nat.add_right_cancel hab
-example : ∃ isnew, (apply hx 0 program (final hx 0 (hist.take 6)) (.upd 4 9 8)).2 = some isnew ∧
-    (isnew = true ↔ ∀ b ∈ (final hx 0 (hist.take 6)).store, b.2 ≠ 9) :=
-  isnew_iff hx (fun a b hab => Nat.add_right_cancel hab) 0 (hist.take 6) 4 9 8 (by decide)
-/-- the theorems are not true of every program: cataloguing before placing the file leaves a
-    dangling entry when the process dies in between -/
+example : Function.Injective (cfgOf true).h := fun _ _ hab => Nat.add_right_cancel hab
+example : ∃ isnew, (apply (cfgOf true) program (final (cfgOf true) (hist.take 6)) (.upd 4 9 13)).2 = some isnew ∧
+    (isnew = true ↔ ∀ b ∈ (final (cfgOf true) (hist.take 6)).store, b.2 ≠ 9) :=
+  isnew_iff (cfgOf true) (fun _ _ hab => Nat.add_right_cancel hab) (hist.take 6) 4 9 13 (by decide)
+/-- The theorems are not true of every program.  The code before the repair moved the staged file straight
+    to its digest name; on another file system a crash in the middle of that copy leaves partial bytes under
+    the digest name, and the retried update finds the name, reports "not new" and catalogues it. -/
 example :
-    let bad : List Instr := [.mkstemp, .dump, .digest, .probe, .record .requested,
-                             .place .unlink .rename, .reply false, .flag true]
-    (run hx 0 bad (init : St Nat Nat Nat) [.upd 1 7 5]).1.prime = [(1, 107)] ∧
-    (run hx 0 bad (init : St Nat Nat Nat) [.upd 1 7 5]).1.store = [] := by decide
-/-- nor of a program that moves even when the name exists while the probe is inverted -/
+    let old : List Instr := [.mkstemp, .dump, .digest, .probe, .act (some true) .unlink,
+                             .act (some false) (.move .store), .record .moved, .reply false, .flag true]
+    (run (cfgOf true) old (init : St Nat Nat Nat) [.upd 1 8 6, .upd 1 8 99]).1.store = [(108, 4)] ∧
+    (run (cfgOf true) old (init : St Nat Nat Nat) [.upd 1 8 6, .upd 1 8 99]).1.prime = [(1, 108)] ∧
+    (run (cfgOf true) old (init : St Nat Nat Nat) [.upd 1 8 6, .upd 1 8 99]).2 = [none, some false] := by decide
+/-- nor of a program that catalogues before the file is in place -/
 example :
-    let bad : List Instr := [.mkstemp, .dump, .digest, .probe, .place .unlink .rename,
-                             .record .moved, .reply true, .flag true]
-    (run hx 0 bad (init : St Nat Nat Nat) [.upd 1 7 8]).2 = [some false] := by decide
+    let bad : List Instr := [.mkstemp, .dump, .digest, .probe, .record .requested, .act (some true) .unlink,
+                             .act (some false) .mkdirs, .act (some false) (.move .incoming),
+                             .act (some false) .replace, .reply false, .flag true]
+    (run (cfgOf false) bad (init : St Nat Nat Nat) [.upd 1 7 6]).1.prime = [(1, 107)] ∧
+    (run (cfgOf false) bad (init : St Nat Nat Nat) [.upd 1 7 6]).1.store = [] := by decide
 end examples
 
 end DawgieVerif.C07
